@@ -40,6 +40,8 @@ def owns(prop, dis):
     if dis['cfg'] not in p['cfgs']:
         return False
     k = dis['kind']
+    if k == 'unsafe-under-safe':
+        return prop == 'C12'
     if k == 'status':
         m, i = dis['model'].split(':')[0], dis['impl'].split(':')[0]
         if 'panic' in (m, i):
